@@ -10,7 +10,7 @@
    getRoleManager(domain, store), rangeAffectedRoleManagers, AddMatchingFunc, AddDomainMatchingFunc +
    rebuild.  The matching functions are Section variables `mf` / `dmf` (any boolean function on
    strings), whether one is registered is a flag of the state.  Go maps are insertion-ordered
-   association lists; listings are compared as sets.  NOT modelled: the conditional managers.
+   association lists; listings are compared as sets.  the conditional managers are modelled separately in RoleCond.v (Properties/C05Cond.v).
 
    WF mf s   (RoleGraphProofs.WFs + WFm): object ids are allocated below m_next; allRoles is a map
              whose entries point at live objects carrying their own name; every roles / users entry
